@@ -11,6 +11,7 @@ use solstat::analyzer::ast::{self, Node, Target};
 use solstat::analyzer::optimizations as opt;
 use solstat::analyzer::qa;
 use solstat::analyzer::utils;
+use solstat::analyzer::utils::LineNumber; // whatever integer type the crate uses for line numbers
 use solstat::analyzer::vulnerabilities as vul;
 
 type Det = fn(SourceUnit) -> HashSet<Loc>;
@@ -112,7 +113,7 @@ fn fmt_locs(set: HashSet<Loc>) -> String {
     v.iter().map(|(s, e)| format!("{}:{}", s, e)).collect::<Vec<_>>().join(" ")
 }
 
-fn fmt_lines(set: BTreeSet<i32>) -> String {
+fn fmt_lines(set: BTreeSet<LineNumber>) -> String {
     set.iter().map(|x| x.to_string()).collect::<Vec<_>>().join(" ")
 }
 
@@ -252,7 +253,7 @@ fn sibling(src: &str) -> Option<String> {
     }
 }
 
-fn analyze_one(idx: usize, name: &str, src: &str) -> BTreeSet<i32> {
+fn analyze_one(idx: usize, name: &str, src: &str) -> BTreeSet<LineNumber> {
     if idx < N_OPT {
         opt::analyze_for_optimization(src, 0, opt::str_to_optimization(name))
     } else if idx < N_OPT + N_VUL {
@@ -262,7 +263,7 @@ fn analyze_one(idx: usize, name: &str, src: &str) -> BTreeSet<i32> {
     }
 }
 
-fn lines_for(idx: usize, name: &str, src: &str, sib: &Option<String>) -> Result<BTreeSet<i32>, ()> {
+fn lines_for(idx: usize, name: &str, src: &str, sib: &Option<String>) -> Result<BTreeSet<LineNumber>, ()> {
     let n = src.len();
     let mut buf = String::with_capacity(n.max(1));
     if n >= DECOY.len() {
